@@ -3,16 +3,25 @@
    (history length, buffer length).  State-based search: sequences of any length are covered. *)
 EXTENDS UI, Json
 CONSTANTS MaxPages, MaxBuf, GenDepth
-VARIABLES st, hist
-vars == <<st, hist>>
-Init == \E o \in {"a", "p"} : st = Init0(o) /\ hist = <<[k |-> "start_" \o o]>>
-Press(k) == /\ \E r \in KeyNext(st, k) : st' = (IF r.hook.k # "none" THEN HookExit(r.st) ELSE r.st)
-            /\ hist' = Append(hist, [k |-> k])
-Next == \E k \in Keys : (k \in CmdToks => st.mode = "command" /\ st.buf = <<>>) /\ Press(k)
+VARIABLES st, hist, held, hp
+vars == <<st, hist, held, hp>>
+(* held: the media hook does not end by itself - its end is a step of its own (HookDone) that may come
+   any number of keys later; hp: hooks started and not yet ended.  Not held: the hook ends before the
+   next key (the composition key . HookExit).                                                        *)
+Init == \E o \in {"a", "p"}, hd \in BOOLEAN :
+           st = Init0(o) /\ held = hd /\ hp = 0 /\ hist = <<[k |-> (IF hd THEN "hstart_" ELSE "start_") \o o]>>
+Press(k) == /\ \E r \in KeyNext(st, k) :
+                 /\ st' = (IF r.hook.k # "none" /\ ~held THEN HookExit(r.st) ELSE r.st)
+                 /\ hp' = IF r.hook.k # "none" /\ held /\ hp < 2 THEN hp + 1 ELSE hp
+            /\ hist' = Append(hist, [k |-> k]) /\ UNCHANGED held
+HookDone == /\ held /\ hp > 0 /\ st' = HookExit(st) /\ hp' = 0
+            /\ hist' = Append(hist, [k |-> "hookexit"]) /\ UNCHANGED held
+Next == \/ \E k \in Keys : (k \in CmdToks => st.mode = "command" /\ st.buf = <<>>) /\ Press(k)
+        \/ HookDone
 Spec == Init /\ [][Next]_vars
 Bound == Len(st.pages) <= MaxPages /\ Len(st.buf) <= MaxBuf
-View == st
-WellFormed == StateOK(st)
+View == <<st, held, hp>>
+WellFormed == StateOK(st) /\ (st.mode = "opening" => held /\ hp > 0)
 (* opening a page keeps everything up to the current page and discards what lay beyond it *)
 HistoryDiscipline == [][ \/ (Len(st'.pages) >= st.at /\ SubSeq(st'.pages, 1, st.at - 1) = SubSeq(st.pages, 1, st.at - 1))
                          \/ st'.pages = st.pages ]_vars
